@@ -1,4 +1,5 @@
 import Orca.Lemmas.BlockAlt
+import Orca.Lemmas.StackAlt
 /-!
 # C21 — block alternate replaces exactly the selected construct
 
@@ -121,5 +122,56 @@ example :
     depthAfter pre 1 = some 2 ∧ depthAfter region 0 = some 0 ∧ depthAfter post 2 = some 0
       ∧ (lower { body := pre ++ sel :: region ++ mk "end" .end_ :: post, hasSpecial := true }).1
           = ["a", "block", "R", "e", "end", "end"] := by decide
+
+/-! ### block alternates together with every other block-level mode -/
+
+/-- **The resolver is a stack machine, alternates included.** For every body and every plan made of `before` / `after` code anywhere,
+    block-entry / block-exit / semantic-after probes on constructs and block alternates on constructs — any number of each, in any
+    combination and nesting — the encoded body is the one the extended stack machine `specRunA` defines (Lemmas/StackAlt.lean): while a
+    construct is being removed every instruction is emptied (special lists discarded; its plain `before` / `after` lists are kept, as in
+    the code), alternates inside a removed region go with it, an alternate on an `else` removes the arm and keeps the `end`. -/
+theorem c21_resolver_is_a_stack_machine (f : Func) (hsp : f.hasSpecial = true) (hentry : f.entry = []) (hexit : f.exit = [])
+    (hp : ∀ x ∈ f.body, PlainA x) (out : List Tok) (hs : specRunA (f.body.length - 1) 0 [{}] none f.body = some out) :
+    lower f = (out, f.added) :=
+  lower_eq_specA f hsp hentry hexit hp out hs
+
+/-- **The region theorem in any context** (`block` / `loop` / `if`): whatever frames are pending around the construct (exit and
+    semantic-after probes of enclosing constructs, if-exit code waiting for an `else`), the machine emits the opener's `before` code, the
+    replacement, the plain lists of the removed instructions, and continues behind the matching `end` **with exactly the frames it had in
+    front of the construct and nothing being removed**: every probe outside the construct is placed as if the construct were not there. -/
+theorem c21_region_in_any_context (last idx : Nat) (b : Fr) (base' : List Fr) (X endI : Instr) (region post : List Instr) (alt : List Tok)
+    (hk : X.kind = .block ∨ X.kind = .loop ∨ X.kind = .if_) (hx : X.blockAlt = some alt) (hreg : depthAfter region 0 = some 0)
+    (hend : endI.kind = .end_) (hl : idx + region.length + 2 ≤ last) (hpost : post ≠ []) :
+    specRunA last idx (b :: base') none (X :: (region ++ endI :: post))
+      = (specRunA last (idx + region.length + 2) (b :: base') none post).map
+          (fun o => X.before ++ alt ++ X.after ++ removedToks region ++ endI.before ++ endI.after ++ o) :=
+  specRunA_alt_open last idx b base' X endI region post alt hk hx hreg hend hl hpost
+
+/-- … and for an alternate on an `else`: the if-exit code waiting for the `else` goes in front of the replacement, the arm contributes
+    only its plain lists, and the `end` of the `if` closes the frame as if nothing had been removed. -/
+theorem c21_else_in_any_context (last idx : Nat) (top b : Fr) (base' : List Fr) (X endI : Instr) (region post : List Instr) (alt : List Tok)
+    (hk : X.kind = .else_) (hx : X.blockAlt = some alt) (hreg : depthAfter region 0 = some 0)
+    (hend : endI.kind = .end_) (hl : idx + region.length + 1 ≤ last) :
+    specRunA last idx (top :: b :: base') none (X :: (region ++ endI :: post))
+      = (specRunA last (idx + region.length + 1) ({ top with ifExit := [] } :: b :: base') none (endI :: post)).map
+          (fun o => X.before ++ top.ifExit ++ alt ++ X.after ++ removedToks region ++ o) :=
+  specRunA_alt_else last idx top b base' X endI region post alt hk hx hreg hend hl
+
+/-! non-vacuity (decided): an alternate on the `else` of an `if` that carries a block-exit probe (the shape of seeded change
+    C21-if-exit-resolved-after-else-alt), inside a block with exit and semantic-after probes; and an alternate on a loop next to them -/
+set_option maxRecDepth 8000 in
+example :
+    let body : List Instr :=
+      [{ mk "block" .block with blockExit := ["X1"], semAfter := ["A1"] },
+       { mk "if" .if_ with blockExit := ["X2"], semAfter := ["A2"] },
+       mk "c" .other,
+       { mk "else" .else_ with blockAlt := some ["R"], blockExit := ["gone"] },
+       { mk "loop" .loop with blockEntry := ["gone2"] }, mk "end" .end_,
+       mk "end" .end_,
+       { mk "loop" .loop with blockAlt := some [] }, mk "d" .other, mk "end" .end_,
+       mk "end" .end_, mk "end" .end_]
+    specRunA 11 0 [{}] none body = some ["block", "if", "c", "X2", "R", "end", "A2", "X1", "end", "A1", "end"]
+    ∧ (lower { body := body, hasSpecial := true }).1 = ["block", "if", "c", "X2", "R", "end", "A2", "X1", "end", "A1", "end"] := by
+  decide
 
 end Orca.Lower
